@@ -68,16 +68,17 @@ Suf2Seq == <<
   [base |-> Id("o"), sfx |-> <<SDot("k"), SDot("floor"), SCall(<<>>)>>]
 >>
 \* precedence starts again inside [ ], ( ) of a call and an array literal
+\* (u, v, w: further variables the harness initialises)
 InnerSeq == <<
-  [base |-> Id("r"), sfx |-> <<SIdx(Bin("=", Id("b"), Lit("Num", "1")))>>],
+  [base |-> Id("r"), sfx |-> <<SIdx(Bin("=", Id("u"), Lit("Num", "1")))>>],
   [base |-> Id("r"), sfx |-> <<SIdx(Bin("-", Bin("-", Lit("Num", "2"), Lit("Num", "1")), Lit("Num", "1")))>>],
-  [base |-> Id("r"), sfx |-> <<SIdx(Bin("||", Bin("<", Id("b"), Id("c")), Lit("true", "true")))>>],
-  [base |-> Id("f"), sfx |-> <<SCall(<<Bin("=", Id("b"), Bin("+", Id("c"), Lit("Num", "1")))>>)>>],
-  [base |-> Id("f"), sfx |-> <<SCall(<<Bin("-", Bin("-", Id("b"), Id("c")), Lit("Num", "1")), Id("d")>>)>>],
-  [base |-> Arr(<<Bin("=", Id("b"), Lit("Num", "5")), Bin("-", Bin("-", Id("c"), Lit("Num", "1")), Lit("Num", "1"))>>),
+  [base |-> Id("r"), sfx |-> <<SIdx(Bin("||", Bin("<", Id("u"), Id("v")), Lit("true", "true")))>>],
+  [base |-> Id("f"), sfx |-> <<SCall(<<Bin("=", Id("u"), Bin("+", Id("v"), Lit("Num", "1")))>>)>>],
+  [base |-> Id("f"), sfx |-> <<SCall(<<Bin("-", Bin("-", Id("u"), Id("v")), Lit("Num", "1")), Id("w")>>)>>],
+  [base |-> Arr(<<Bin("=", Id("u"), Lit("Num", "5")), Bin("-", Bin("-", Id("v"), Lit("Num", "1")), Lit("Num", "1"))>>),
    sfx |-> <<SIdx(Lit("Num", "1"))>>],
   [base |-> Id("r"), sfx |-> <<SIdx(Un("-", Un("-", Lit("Num", "1"))))>>],
-  [base |-> Id("f"), sfx |-> <<SCall(<<Un("!", Bin("==", Id("b"), Id("c")))>>)>>]
+  [base |-> Id("f"), sfx |-> <<SCall(<<Un("!", Bin("==", Id("u"), Id("v")))>>)>>]
 >>
 
 \* deterministic pseudo-random operator index from Seed, sample number s, place j
